@@ -104,6 +104,7 @@ class Stats(object):
         self.states = 0
         self.transitions = 0
         self.outcomes = Counter()
+        self.sigcount = Counter()
         self.violations = []
         self.nviolations = 0
         self.samples = []
@@ -119,7 +120,10 @@ class Stats(object):
         self.outcomes[res.outcome] += 1
         if res.violation is not None:
             self.nviolations += 1
-            if len(self.violations) < MAX_VIOL_KEPT:
+            sig = res.violation.get('sig')
+            self.sigcount[sig] += 1
+            # keep a few examples of EVERY distinct signature (a flood of one kind must not hide another)
+            if self.sigcount[sig] <= 3 and len(self.violations) < 400:
                 v = dict(res.violation)
                 v['family'] = self.family
                 v['case'] = jsonable(res.case if res.case is not None else case)
@@ -134,7 +138,7 @@ class Stats(object):
         self.outcomes.update(other.outcomes)
         self.nviolations += other.nviolations
         self.violations.extend(other.violations)
-        self.violations = self.violations[:MAX_VIOL_KEPT * 4]
+        self.sigcount.update(other.sigcount)
         for s in other.samples:
             if len(self.samples) < 6:
                 self.samples.append(s)
@@ -426,10 +430,11 @@ def run_property(prop, tier, seed, only=None):
     fresh = []
     known_hits = Counter()
     for name, st in merged.items():
+        for sig, n in st.sigcount.items():
+            if sig in open_known:
+                known_hits[sig] += n
         for v in st.violations:
-            if v['sig'] in open_known:
-                known_hits[v['sig']] += 1
-            else:
+            if v['sig'] not in open_known:
                 fresh.append(v)
     rc = 0
     for sig, n in sorted(known_hits.items()):
